@@ -33,7 +33,7 @@ type c13L struct {
 }
 
 func init() {
-	steps := []string{"sessionless", "discovery", "open", "rakp1", "rakp3", "insession", "close", "sdr-info", "sdr-reserve", "sdr-get1", "sdr-get2", "sdr-get3", "sdr-get4", "sdr-final", "wrongpw", "close2", "after-expired", "suites-idx1", "suites-idx2", "sensor-read", "dcmi-enum"}
+	steps := []string{"sessionless", "discovery", "open", "rakp1", "rakp3", "insession", "close", "sdr-info", "sdr-reserve", "sdr-get1", "sdr-get2", "sdr-get3", "sdr-get4", "sdr-final", "wrongpw", "close2", "after-expired", "suites-idx1", "suites-idx2", "sensor-read", "dcmi-enum", "suites-again"}
 	faults := []string{"blackhole", "late", "garbage", "tempcode", "trunc", "ffrun", "drop-once", "repo-modified", "runts", "close-inflight"}
 	register(&Check{
 		ID:      "C13",
@@ -55,7 +55,7 @@ func init() {
 							continue // the repository can only change under a retrieval
 						}
 						if tier == "quick" && (fi+ri+len(st))%3 != int(seed%3+3)%3 && !(f == "repo-modified" && ri != 2 && st == "sdr-get3") && !(st == "wrongpw" && f == "blackhole" && ri < 2) && !(f == "drop-once" && ri == 2 && (st == "sdr-get2" || st == "sdr-get4" || st == "discovery")) &&
-							!((st == "suites-idx1" || st == "suites-idx2") && (f == "blackhole" && ri != 1 || f == "tempcode" && ri == 2 || f == "garbage" && ri == 2)) {
+							!((st == "suites-idx1" || st == "suites-idx2" || st == "suites-again") && (f == "blackhole" && ri != 1 || f == "tempcode" && ri == 2 || f == "garbage" && ri == 2)) {
 							continue
 						}
 						cs = append(cs, ev.MkCase("udp", c13P{Step: st, Fault: f, Timeout: rt[0], Deadline: rt[1], Seed: seed}))
@@ -65,6 +65,11 @@ func init() {
 				for _, f := range []string{"lost", "garbage", "busy", "expired", "ffrun"} {
 					cs = append(cs, ev.MkCase("mem", c13L{Step: st, Fault: f, Seed: seed}))
 				}
+			}
+			// the BMC answers every Open Session Request with a status that says "try again later"
+			// (0x01 insufficient resources): whatever the library makes of that, it is back by the deadline
+			for _, rt := range [][2]int{{100, 500}, {300, 700}, {100, 1000}, {2000, 350}, {600, 900}} {
+				cs = append(cs, ev.MkCase("udp", c13P{Step: "open", Fault: "open-status-temp", Timeout: rt[0], Deadline: rt[1], Seed: seed}))
 			}
 			// steps that carry their own fault: the BMC's port is gone (ICMP errors instead of silence), the
 			// repository holds a Full Sensor Record longer than the library reads (the walk can never complete)
@@ -151,6 +156,10 @@ func c13Match(step string, b *refbmc.BMC, getCount *int) bool {
 		return e.Kind == "sessionless-ipmi" && e.Cmd == 0x37
 	case "discovery":
 		return e.Kind == "sessionless-ipmi" && e.Cmd == 0x54
+	case "suites-again":
+		// an enumeration has completed on this connection before (getCount is set past 1000 then);
+		// every request of the next one meets the fault
+		return e.Kind == "sessionless-ipmi" && e.Cmd == 0x54 && *getCount >= 1000
 	case "suites-idx1", "suites-idx2":
 		// the enumeration has already been answered for the earlier list indices, whose chunks end on a record boundary
 		return e.Kind == "sessionless-ipmi" && e.Cmd == 0x54 && len(e.Data) == 3 && int(e.Data[2]&0x3f) >= int(step[len(step)-1]-'0')
@@ -250,6 +259,9 @@ func c13UDP(run *ev.Run, p c13P, cs ev.Case) (string, func()) {
 	}
 	srv.SetFault(func(n int, req, reply []byte) ([][]byte, time.Duration) {
 		if p.Fault == "repo-modified" {
+			if reply != nil {
+				validSent++
+			}
 			return [][]byte{reply}, 0
 		}
 		if !faultOn && c13Match(p.Step, b, &getCount) {
@@ -298,6 +310,11 @@ func c13UDP(run *ev.Run, p c13P, cs ev.Case) (string, func()) {
 				time.AfterFunc(time.Duration(p.Deadline/3+20)*time.Millisecond, func() { st.Close() })
 			}
 			return nil, 0
+		case "open-status-temp":
+			if e := b.Last(); e != nil && e.Kind == "open" && len(e.Payload) >= 8 {
+				return [][]byte{refbmc.RMCP(refbmc.SessHdr(0x11, 0, 0, append([]byte{e.Payload[0], 0x01, 0, 0}, e.Payload[4:8]...)))}, 0
+			}
+			return [][]byte{reply}, 0
 		case "trunc":
 			if len(reply) > 4 {
 				return [][]byte{reply[:len(reply)/2]}, 0
@@ -349,6 +366,17 @@ func c13UDP(run *ev.Run, p c13P, cs ev.Case) (string, func()) {
 		safe(func() { sess.Close(c0) })
 		cancel0()
 	}
+	if p.Step == "suites-again" {
+		c0, cancel0 := context.WithTimeout(context.Background(), 15*time.Second)
+		_, err0 := bmc.RetrieveSupportedCipherSuites(c0, st)
+		cancel0()
+		if err0 != nil {
+			run.Violation("C13:setup", fmt.Sprintf("fault-free cipher suite enumeration failed: %v", err0), cs, nil)
+			return "violated", nil
+		}
+		getCount = 1000
+	}
+	validBefore := validSent
 	if p.Step == "dead-port-sessionless" || p.Step == "dead-port-open" {
 		srv.Close() // from here on the kernel answers the console's datagrams with ICMP port unreachable
 		faultOn = true
@@ -381,7 +409,7 @@ func c13UDP(run *ev.Run, p c13P, cs ev.Case) (string, func()) {
 				_, callErr = st.GetSystemGUID(ctx)
 			case "discovery", "open", "rakp1", "rakp3", "wrongpw", "dead-port-open":
 				_, callErr = st.NewV2Session(ctx, opts)
-			case "suites-idx1", "suites-idx2":
+			case "suites-idx1", "suites-idx2", "suites-again":
 				_, callErr = bmc.RetrieveSupportedCipherSuites(ctx, st)
 			case "insession":
 				_, callErr = sess.GetDeviceID(ctx)
@@ -447,6 +475,10 @@ func c13UDP(run *ev.Run, p c13P, cs ev.Case) (string, func()) {
 		msg := fmt.Sprintf("%s: returned %v after the deadline in three runs out of three (allowance 250ms; canary lateness %v; err=%v)", desc, overshoot, late, callErr)
 		return "overshoot", func() { run.Violation(key, msg, cs, nil) }
 	}
+	if callErr == nil && validSent == validBefore && p.Fault != "late" {
+		run.Violation("C13:success-without-valid-response:"+p.Step, fmt.Sprintf("%s: call reported success although the BMC sent no valid response while it ran (datagrams received by the BMC: %d)", desc, srv.Received.Load()), cs, nil)
+		return "violated", nil
+	}
 	if callErr == nil && sdrCount >= 0 && sdrCount != 3 {
 		run.Violation("C13:success-without-valid-response:"+p.Step, fmt.Sprintf("%s: retrieval reported success with %d of the 3 records although a reply was lost on the way", desc, sdrCount), cs, nil)
 		return "violated", nil
@@ -476,12 +508,16 @@ func c13Mem(run *ev.Run, l c13L, cs ev.Case) {
 	getCount := 0
 	var cancelCaller context.CancelFunc
 	afterFault := 0
+	validReplies := 0
 	t := memtr.New(func(n int, req []byte) ([]byte, error) {
 		reply := b.Handle(req)
 		if !faultOn && c13Match(l.Step, b, &getCount) {
 			faultOn = true
 		}
 		if !faultOn {
+			if reply != nil {
+				validReplies++
+			}
 			return reply, nil
 		}
 		afterFault++
@@ -539,6 +575,17 @@ func c13Mem(run *ev.Run, l c13L, cs ev.Case) {
 			return
 		}
 	}
+	if l.Step == "suites-again" {
+		c0, cancel0 := context.WithTimeout(context.Background(), 15*time.Second)
+		_, err0 := bmc.RetrieveSupportedCipherSuites(c0, st)
+		cancel0()
+		if err0 != nil {
+			run.Violation("C13:setup", fmt.Sprintf("fault-free cipher suite enumeration failed: %v", err0), cs, nil)
+			return
+		}
+		getCount = 1000
+	}
+	validBefore := validReplies
 	callerDeadline := time.Now().Add(20 * time.Second)
 	if l.Fault == "expired" {
 		callerDeadline = time.Now().Add(-time.Second)
@@ -555,7 +602,7 @@ func c13Mem(run *ev.Run, l c13L, cs ev.Case) {
 			_, callErr = st.GetSystemGUID(ctx)
 		case "discovery", "open", "rakp1", "rakp3", "wrongpw":
 			_, callErr = st.NewV2Session(ctx, opts)
-		case "suites-idx1", "suites-idx2":
+		case "suites-idx1", "suites-idx2", "suites-again":
 			_, callErr = bmc.RetrieveSupportedCipherSuites(ctx, st)
 		case "insession":
 			_, callErr = sess.GetDeviceID(ctx)
@@ -610,6 +657,10 @@ func c13Mem(run *ev.Run, l c13L, cs ev.Case) {
 	}
 	if faultOn && callErr == nil {
 		run.Violation("C13:success-without-valid-response:"+l.Step, desc+": call reported success although every reply from the fault on was invalid", cs, nil)
+		return
+	}
+	if callErr == nil && validReplies == validBefore {
+		run.Violation("C13:success-without-valid-response:"+l.Step, fmt.Sprintf("%s: call reported success although no valid response was delivered while it ran (%d transmissions)", desc, len(recs)), cs, nil)
 		return
 	}
 	// after the caller's context ended nothing more may be transmitted
